@@ -1104,6 +1104,36 @@ func r12_7(c *Ctx) {
 					}
 				}
 			}
+			// the comparison is made before the product is converted to an integer: a product beyond the int64
+			// range converts to a negative duration, which is below every limit and escapes the cap for good
+			convertedFirst := ""
+			for _, ifi := range ifsIn(gi) {
+				cnd := decodeIf(ifi)
+				if cnd.Y == nil {
+					continue
+				}
+				for _, side := range []ssa.Value{cnd.X, cnd.Y} {
+					cv, ok := side.(*ssa.Convert)
+					if !ok {
+						continue
+					}
+					fb, isF := cv.X.Type().Underlying().(*types.Basic)
+					ib, isI := cv.Type().Underlying().(*types.Basic)
+					if isF && isI && fb.Info()&types.IsFloat != 0 && ib.Info()&types.IsInteger != 0 && d(cv.X, cur) && d(cv.X, mul) {
+						other := cnd.Y
+						if side == cnd.Y {
+							other = cnd.X
+						}
+						if d(other, max) {
+							convertedFirst = P.ipos(ifi)
+						}
+					}
+				}
+			}
+			if nCmp > 0 {
+				c.check(convertedFirst == "", fnLabel(gi)+":cap-before-conversion", P.pos(gi.Pos()), "the grown interval is compared with MaxInterval in floating point, before it is converted to a duration",
+					"the product interval*Multiplier is converted to an integer duration and only then compared with MaxInterval (at "+convertedFirst+"): a product beyond the int64 range (a large server retry value, a large multiplier) converts to a negative duration, passes the test, and every later wait is negative — the cap never applies again")
+			}
 			if nCmp > 0 {
 				c.check(withMul > 0, fnLabel(gi)+":cap-test-on-grown-interval", P.pos(gi.Pos()), "the comparison with MaxInterval involves the multiplier (it is about the grown interval)", "the interval is compared with MaxInterval without the multiplier: the cap applies only once the current interval has reached the limit, so one step overshoots it (b_(k+1) = b_k*Multiplier > MaxInterval)")
 			}
